@@ -103,19 +103,36 @@ func InstrumentMock(src []byte) ([]byte, error) {
 			continue
 		}
 		fd.Doc = nil
-		if fd.Recv == nil || len(fd.Recv.List) != 1 || len(fd.Recv.List[0].Names) != 1 {
-			// free functions in generated output: scan for unsupported constructs only
+		// roots: the receiver and every parameter whose type is (a pointer to)
+		// a struct declared in this file; ptrs: every other pointer parameter
+		// (a helper that is handed &mock.calls.X dereferences it)
+		ctx := &fctx{in: in, roots: map[string]*structInfo{}, ptrs: map[string]bool{}}
+		addRoot := func(fl *ast.Field) {
+			for _, n := range fl.Names {
+				if n.Name == "_" {
+					continue
+				}
+				if si := in.structs[recvBase(fl.Type)]; si != nil {
+					ctx.roots[n.Name] = si
+				} else if _, isPtr := fl.Type.(*ast.StarExpr); isPtr {
+					ctx.ptrs[n.Name] = true
+				}
+			}
+		}
+		if fd.Recv != nil {
+			for _, fl := range fd.Recv.List {
+				addRoot(fl)
+			}
+		}
+		if fd.Type.Params != nil {
+			for _, fl := range fd.Type.Params.List {
+				addRoot(fl)
+			}
+		}
+		if len(ctx.roots) == 0 && len(ctx.ptrs) == 0 {
 			in.scanUnsupported(fd.Body)
 			continue
 		}
-		recv := fd.Recv.List[0].Names[0].Name
-		base := recvBase(fd.Recv.List[0].Type)
-		si := in.structs[base]
-		if si == nil || recv == "_" {
-			in.scanUnsupported(fd.Body)
-			continue
-		}
-		ctx := &fctx{in: in, recv: recv, root: si}
 		fd.Body.List = ctx.block(fd.Body.List)
 	}
 	if in.unsup != "" {
@@ -212,12 +229,13 @@ type access struct {
 	expr  ast.Expr // the location expression, e.g. mock.calls.Get
 	label string
 	write bool
+	isPtr bool // expr already is a pointer to the location
 }
 
 type fctx struct {
-	in   *inst
-	recv string
-	root *structInfo
+	in    *inst
+	roots map[string]*structInfo // identifiers that denote (pointers to) structs of this file
+	ptrs  map[string]bool        // other pointer-typed parameters
 }
 
 // resolve splits a selector chain rooted at the receiver into the longest
@@ -226,6 +244,7 @@ type fctx struct {
 // when it reaches a simulated sync object (no probe wanted).
 func (c *fctx) resolve(e ast.Expr) (loc ast.Expr, label string, leaves []access, sync, ok bool) {
 	var chain []string
+	rootName := ""
 	cur := e
 	for {
 		switch t := cur.(type) {
@@ -240,9 +259,10 @@ func (c *fctx) resolve(e ast.Expr) (loc ast.Expr, label string, leaves []access,
 			cur = t.X
 			continue
 		case *ast.Ident:
-			if t.Name != c.recv {
+			if c.roots[t.Name] == nil {
 				return nil, "", nil, false, false
 			}
+			rootName = t.Name
 		default:
 			return nil, "", nil, false, false
 		}
@@ -251,8 +271,8 @@ func (c *fctx) resolve(e ast.Expr) (loc ast.Expr, label string, leaves []access,
 	if len(chain) == 0 {
 		return nil, "", nil, false, false
 	}
-	si := c.root
-	var built ast.Expr = ast.NewIdent(c.recv)
+	si := c.roots[rootName]
+	var built ast.Expr = ast.NewIdent(rootName)
 	var names []string
 	for i, name := range chain {
 		ft, isField := si.fields[name]
@@ -332,7 +352,11 @@ func (c *fctx) collect(e ast.Node, write bool, out *[]access) {
 			c.in.unsup = "channel receive"
 		}
 		if t.Op == token.AND {
-			// address taken: treat as a read of the location (aliasing is not followed)
+			// taking an address is not an access; the pointer is followed
+			// where it is dereferenced (pointer parameters, local pointers)
+			if _, _, _, _, ok := c.resolve(t.X); ok {
+				return
+			}
 			c.collect(t.X, false, out)
 			return
 		}
@@ -358,11 +382,15 @@ func (c *fctx) collect(e ast.Node, write bool, out *[]access) {
 		c.collect(t.Index, false, out)
 		return
 	case *ast.StarExpr:
-		if id, ok := t.X.(*ast.Ident); ok && id.Name == c.recv {
-			for _, l := range c.leavesOf(ast.NewIdent(c.recv), nil, c.root) {
+		if id, ok := t.X.(*ast.Ident); ok && c.roots[id.Name] != nil {
+			for _, l := range c.leavesOf(ast.NewIdent(id.Name), nil, c.roots[id.Name]) {
 				l.write = write
 				*out = append(*out, l)
 			}
+			return
+		}
+		if id, ok := t.X.(*ast.Ident); ok && c.ptrs[id.Name] {
+			*out = append(*out, access{expr: ast.NewIdent(id.Name), label: "*" + id.Name, write: write, isPtr: true})
 			return
 		}
 		c.collect(t.X, write, out)
@@ -399,10 +427,17 @@ func (c *fctx) probes(acc []access) []ast.Stmt {
 		c.in.used = true
 		out = append(out, &ast.ExprStmt{X: &ast.CallExpr{
 			Fun:  &ast.SelectorExpr{X: ast.NewIdent(simrtName), Sel: ast.NewIdent(fn)},
-			Args: []ast.Expr{&ast.UnaryExpr{Op: token.AND, X: a.expr}, &ast.BasicLit{Kind: token.STRING, Value: strconv.Quote(a.label)}},
+			Args: []ast.Expr{ptrTo(a), &ast.BasicLit{Kind: token.STRING, Value: strconv.Quote(a.label)}},
 		}})
 	}
 	return out
+}
+
+func ptrTo(a access) ast.Expr {
+	if a.isPtr {
+		return a.expr
+	}
+	return &ast.UnaryExpr{Op: token.AND, X: a.expr}
 }
 
 func (c *fctx) block(list []ast.Stmt) []ast.Stmt {
@@ -416,13 +451,24 @@ func (c *fctx) block(list []ast.Stmt) []ast.Stmt {
 func (c *fctx) stmt(s ast.Stmt) []ast.Stmt {
 	switch t := s.(type) {
 	case *ast.AssignStmt:
+		if t.Tok == token.DEFINE && len(t.Lhs) == len(t.Rhs) {
+			for i, r := range t.Rhs {
+				if u, ok := r.(*ast.UnaryExpr); ok && u.Op == token.AND {
+					if _, _, _, sync, ok := c.resolve(u.X); ok && !sync {
+						if id, ok := t.Lhs[i].(*ast.Ident); ok && id.Name != "_" {
+							c.ptrs[id.Name] = true // p := &mock.calls.X : *p is that location
+						}
+					}
+				}
+			}
+		}
 		var reads, writes []access
 		for _, r := range t.Rhs {
 			c.collect(r, false, &reads)
 		}
 		for _, l := range t.Lhs {
-			if id, ok := l.(*ast.Ident); ok && id.Name != c.recv {
-				continue
+			if _, ok := l.(*ast.Ident); ok {
+				continue // a plain local variable
 			}
 			c.collect(l, true, &writes)
 		}
@@ -448,7 +494,15 @@ func (c *fctx) stmt(s ast.Stmt) []ast.Stmt {
 			out = append(out, c.probes(reads)...)
 			if call, ok := rhs.(*ast.CallExpr); ok && len(call.Args) > 0 && !call.Ellipsis.IsValid() || ok && len(call.Args) > 0 {
 				if id, isIdent := call.Fun.(*ast.Ident); isIdent && id.Name == "append" {
-					if loc, label, leaves, sync, ok := c.resolve(call.Args[0]); ok && !sync && leaves == nil {
+					if st, isStar := call.Args[0].(*ast.StarExpr); isStar {
+						if pid, ok := st.X.(*ast.Ident); ok && c.ptrs[pid.Name] {
+							c.in.used = true
+							out = append(out, &ast.ExprStmt{X: &ast.CallExpr{
+								Fun:  &ast.SelectorExpr{X: ast.NewIdent(simrtName), Sel: ast.NewIdent("AppendProbe")},
+								Args: []ast.Expr{call.Args[0], &ast.BasicLit{Kind: token.STRING, Value: strconv.Quote("*" + pid.Name)}},
+							}})
+						}
+					} else if loc, label, leaves, sync, ok := c.resolve(call.Args[0]); ok && !sync && leaves == nil {
 						c.in.used = true
 						out = append(out, &ast.ExprStmt{X: &ast.CallExpr{
 							Fun:  &ast.SelectorExpr{X: ast.NewIdent(simrtName), Sel: ast.NewIdent("AppendProbe")},
